@@ -4,7 +4,9 @@
    generated facts say (so a reset dropped from zap's source changes the facts and breaks
    these lemmas); (3) the pool invariant [clean] used by the proofs is exactly "every field
    that acquire does not assign holds what New() put there", i.e. the conclusion of
-   Hygiene.pooled_clean. *)
+   Hygiene.pooled_clean; (4) the regenerated shared-state facts list no assignment through the
+   *EncoderConfig a logger family shares, nor to the receiver of the methods that run on a
+   logger's long-lived encoder (end of this file). *)
 From Coq Require Import List ZArith NArith Bool Arith Lia String.
 From Coq.Strings Require Import Byte.
 Import ListNotations.
@@ -315,3 +317,44 @@ Proof.
   intros f Hf. apply disc_ok_sound.
   pose proof own_facts_ok as H. rewrite forallb_forall in H. apply H. exact Hf.
 Qed.
+
+(* ---------------- family-wide state facts ---------------- *)
+(* no method of the encoders (nor putJSONEncoder / addFields) assigns through the *EncoderConfig its
+   whole logger family shares, and the methods that run on a logger's long-lived encoder do not
+   assign to, mutate or hand on their receiver (decided by computation on the regenerated facts) *)
+Lemma shared_facts_readonly : shared_readonly shared_facts = true.
+Proof. vm_compute. reflexivity. Qed.
+
+Lemma shared_no_writes : forall f, In f shared_facts -> sf_cfg_writes f = [] /\ sf_recv_writes f = [].
+Proof.
+  intros f Hf. pose proof shared_facts_readonly as H. unfold shared_readonly in H.
+  rewrite forallb_forall in H. specialize (H f Hf). unfold sf_writes in H.
+  destruct (sf_cfg_writes f); [|discriminate H]. destruct (sf_recv_writes f); [|discriminate H].
+  split; reflexivity.
+Qed.
+
+(* the methods that run on the long-lived encoder are the ones the translator was told to treat so,
+   and the fallback paths (a callback that appends nothing) are among the listed functions *)
+Lemma shared_entry_points :
+  map sf_fn (filter sf_entry shared_facts) =
+  ["consoleEncoder.Clone"; "consoleEncoder.EncodeEntry"; "consoleEncoder.addSeparatorIfNecessary";
+   "consoleEncoder.writeContext"; "jsonEncoder.Clone"; "jsonEncoder.EncodeEntry"; "jsonEncoder.clone"].
+Proof. vm_compute. reflexivity. Qed.
+Lemma shared_fallback_paths_listed :
+  forallb (fun n => existsb (String.eqb n) (map sf_fn shared_facts))
+          ["jsonEncoder.EncodeEntry"; "jsonEncoder.AppendTime"; "jsonEncoder.AppendDuration"; "jsonEncoder.AddReflected";
+           "jsonEncoder.AppendReflected"; "putJSONEncoder"; "addFields"] = true.
+Proof. vm_compute. reflexivity. Qed.
+
+(* hence, for ANY semantics of the encoders' methods that assigns to family-wide state only where the
+   regenerated facts say the source does: after any history of calls by any members of a logger family
+   the output of a call is what it is on the state the constructor left *)
+Lemma family_history_independent (V I O : Type) (h1 h2 : list (path V I O * I)) :
+  Forall (fun pi => conforms shared_facts (fst pi)) h1 ->
+  Forall (fun pi => conforms shared_facts (fst pi)) h2 ->
+  forall s p i, fobserve h1 s p i = fobserve h2 s p i.
+Proof. apply shared_history_independent. exact shared_facts_readonly. Qed.
+
+Lemma family_state_preserved (V I O : Type) (h : list (path V I O * I)) :
+  Forall (fun pi => conforms shared_facts (fst pi)) h -> forall s, frun h s = s.
+Proof. apply shared_sound. exact shared_facts_readonly. Qed.
